@@ -30,10 +30,15 @@ def replay(payload):
 def run(tier, seed, t0, only=None, pid=PID, obj=OBJ, files=FILES, shapes=None):
     shapes = shapes or shapes_for(tier)
     tasks = []
-    for shape, be in shapes:
+    for entry in shapes:
+        shape, be = entry[:2]
+        skip = entry[2] if len(entry) > 2 else ()
+        modes = entry[3] if len(entry) > 3 else c01.MODES
         nstates = 4
-        for moore, plus_one in c01.MODES:
+        for moore, plus_one in modes:
             for grp in GROUPS:
+                if grp[0] in skip:
+                    continue
                 split = (shape.startswith('B11') or shape.startswith('S11g')) and grp[0] in ('init', 'closure', 'nonblock')
                 for part in (range(nstates) if split else [None]):
                     tasks.append(dict(mod='vlib.trans', fn='family_obligations',
@@ -43,7 +48,7 @@ def run(tier, seed, t0, only=None, pid=PID, obj=OBJ, files=FILES, shapes=None):
                                       name=f'{be}:{obj}-impl:{shape}:moore={moore}:plus_one={plus_one}:{grp[0]}'
                                            + ('' if part is None else f'@state{part}')))
     nmem = 96 if tier == 'quick' else 600
-    for shape in ('S11g2', 'S11g3', 'S11h2', 'S11g2h2', 'B11a'):
+    for shape in ('S11g2', 'S11g3', 'S11h2', 'S11g2h2', 'B11a', 'B02g2', 'B02g2h2'):
         for moore, plus_one in c01.MODES:
             sds = [seed * 7919 + i * 104729 + 13 for i in range(nmem)]
             for i in range(0, nmem, 24):
@@ -55,6 +60,8 @@ def run(tier, seed, t0, only=None, pid=PID, obj=OBJ, files=FILES, shapes=None):
     for i in range(0, ngames, 20):
         tasks.append(dict(mod='vlib.trans', fn='game_instances', kw=dict(objective=obj, seeds=gs[i:i + 20]), timeout=3000,
                           name=f'cudd:{obj}-impl:games[{i}]'))
+    # longest single queries first (two-goal liveness)
+    tasks.sort(key=lambda t: 0 if ('g2:' in t['name'] and t['name'].endswith(':liveness')) else 1)
     if only:
         tasks = [t for t in tasks if only in t['name']]
     results = core.run_tasks(tasks)
@@ -62,7 +69,7 @@ def run(tier, seed, t0, only=None, pid=PID, obj=OBJ, files=FILES, shapes=None):
     transitions = sum(r['extra'].get('transitions', 0) for r in results)
     return core.finish(
         pid, tier, seed, 'model_checking', results, t0, files=files,
-        bounds=dict(families=[f'{s}@{b}' for s, b in shapes], modes=4, qinit='\\A \\A with EnvInit := Win',
+        bounds=dict(families=[f'{e[0]}@{e[1]}' + (f' without {"/".join(e[2])}' if len(e) > 2 else '') + (f' modes {e[3]}' if len(e) > 3 else '') for e in shapes], modes=4, qinit='\\A \\A with EnvInit := Win',
                     liveness='Emerson-Lei fair-cycle fixpoint unrolled N x N on N explicit product states '
                              '(state x memory), edges symbolic in the table constants',
                     solver_timeout_ms=trans.SOLVER_MS),
